@@ -3,7 +3,7 @@ invariant preservation for Entities::add_entities (update_entity_map, touched-ma
 import os, copy, importlib.util
 from vx.assemble import Fn, Type, Raw, Loop, ClosureRw, FnRw, cmp_rw
 
-PROPERTIES = ['C04']
+PROPERTIES = ['C04', 'C13']
 HEADER = '#![feature(allocator_api)]'
 STDMODEL = ['iter.rs', 'hash.rs', 'hash_entry.rs', 'btree.rs', 'std.rs']
 ENTS = 'cedar-policy-core/src/entities.rs'
@@ -26,8 +26,10 @@ def _rebased(items):
     return out
 W = 'impl Entities'
 ITEMS = _rebased(_m.ITEMS) + [
+    Type('cedar-policy-core/src/ast/types.rs', 'enum Type'),
     Raw(file='spec.rs', tag='spec'),
     Raw(file='prelude.rs', tag='prelude'),
+    Type(ENTS, 'enum Dereference'),
     Type(ENTS, 'struct Entities'),
     Type(ENTS, 'enum TCComputation'),
     Fn(ENTS, 'fn update_entity_map',
@@ -74,4 +76,11 @@ ITEMS = _rebased(_m.ITEMS) + [
                     }
                 }''')],
        ),
+    Fn(ENTS, 'impl Entities > fn entity', name='Entities::entity', wrap=W, props=['C13', 'C04'],
+       ensures=[('lookup', '''match r {
+            Dereference::Data(e) => self.entities@.contains_key(*uid) && *e == *self.entities@[*uid],
+            Dereference::NoSuchEntity => !self.entities@.contains_key(*uid) && self.mode == Mode::Concrete,
+            Dereference::Residual(x) => !self.entities@.contains_key(*uid) && self.mode == Mode::Partial
+                && x.spec_unknown() is Some && x.spec_unknown()->Some_0.type_annotation == Some(Type::Entity { ty: uid.spec_entity_type() }),
+        }''')]),
 ]
